@@ -584,6 +584,28 @@ let c01_chk_spec t =
   else if !bad = [] then "ok=1 rows=" ^ string_of_int !checked
   else "ok=0 " ^ String.concat "," (List.rev !bad)
 
+(* chk_cluster <nrecs> {rec}* <nnodes> { <nrows> {<row> <val|-1>}* }
+   the conclusion of the cluster theorem (C01_cluster_quiescent_node_shows_the_merge) judged on
+   REAL agents at quiescence: U = every record of every acknowledged transaction; if U is
+   well-formed, without unordered pairs (no_tie) and with unique clock positions, every node's
+   table must be table (merge_all [] U) *)
+let c01_chk_cluster t =
+  let nrec = ti t in
+  let recs = tlist t nrec p_rec in
+  let nn = ti t in
+  let tbls = tlist t nn (fun t -> let k = ti t in tlist t k (fun t -> let row = tz t in let v = tz t in (int_of_z row, int_of_z v))) in
+  let rows = List.sort_uniq compare (List.map (fun r -> int_of_z r.r_row) recs) in
+  let wf_all = List.for_all (fun k -> wf_row (on_row (z_of_small k) recs)) rows in
+  if not wf_all then "wf=0 why=wf"
+  else if not (no_tie recs) then "wf=0 why=tie"
+  else if not (clk_unique recs) then "wf=0 why=clk"
+  else begin
+    let want = List.map (fun (row, v) -> (int_of_z row, match v with Some x -> int_of_z x | None -> -1)) (table (merge_all [] recs)) in
+    let bad = List.concat (List.mapi (fun i tb -> if tb = want then [] else ["node" ^ string_of_int i]) tbls) in
+    if bad = [] then "ok=1 rows=" ^ string_of_int (List.length want)
+    else "ok=0 " ^ String.concat "," bad ^ " want=" ^ String.concat "," (List.map (fun (r, v) -> string_of_int r ^ "=" ^ string_of_int v) want)
+  end
+
 (* ---------- C11: subscriptions ---------- *)
 let rec p_expr t = match tok t with
   | "c" -> let p = ti t in let c = ti t in ECol (nat_of_int p, nat_of_int c)
@@ -922,6 +944,7 @@ let handlers : (string * (toks -> string)) list ref = ref [
   "chk_members", c18_chk;
   "crdtm", c01_crdtm;
   "chk_spec", c01_chk_spec;
+  "chk_cluster", c01_chk_cluster;
   "ivm", c11_ivm;
   "pool", c20_poolm;
   "backupm", c19_backupm;
